@@ -49,7 +49,7 @@ PROPS = {
     ),
 }
 
-PROBES = {'C18': ['solver_paused_nonempty', 'two_pausers', 'notify_no_waiter', 'interface_threads_with_equal_names', 'two_waiters_meet_before_cont', 'generated_method_called_with_keywords',
+PROBES = {'C18': ['solver_paused_nonempty', 'two_pausers', 'notify_no_waiter', 'interface_threads_with_equal_names', 'two_waiters_meet_before_cont', 'generated_method_called_with_keywords', 'one_controller_shared_by_two_threads',
                   'queued_while_paused', 'get_result_before_exec', 'get_result_after_exec',
                   'queue_nonempty_at_cp_entry', 'cont_while_solver_between_cps',
                   'wait_returned', 'cli_frontend_runs', 'drain_phase_needed', 'real_solver_loop']}
@@ -130,6 +130,7 @@ def gen(t, prop, tier):
               real_solver=1 if t.bool(0.3) else 0, command_interval=t.choice([1, 1, 2, 3]))
     # interface threads created by the user with one and the same name (thread names need not be unique)
     sc['same_names'] = 1 if (n_iface > 1 and t.bool(0.25)) else 0
+    sc['shared_controller'] = 1 if (n_iface > 1 and not cli and t.bool(0.2)) else 0
     # two front ends that both pause, wait, and meet each other before either of them continues (both wait() calls must return)
     if n_iface == 2 and not cli and regime['pause'] and t.bool(0.15):
         for prog in programs:
@@ -462,8 +463,16 @@ def execute(sc, prop):
     h.meet_cond.label = 'meet'
     cli_mode = False
 
+    shared_ctrl = [None]
+    if sc.get('shared_controller') and len(programs) == 2 and all(p.get('kind') != 'cli' for p in programs):
+        # one Controller object served to both front ends (what the multiprocessing / XML-RPC interfaces do)
+        shared_ctrl[0] = ctl.Controller(cm, True)
+        h.probe('one_controller_shared_by_two_threads')
+
     def make_iface(idx, prog):
         def body(ctrl):
+            if shared_ctrl[0] is not None:
+                ctrl = shared_ctrl[0]
             try:
                 if prog.get('kind') == 'cli':
                     ifm = st.exec_module_with_simthreads('verif_interfaces', _SRC['interfaces'],
